@@ -55,13 +55,54 @@ unsafe fn scan(p: *const u8, size: usize) {
     }
 }
 
+// blocks allocated while a value was being built and still live: "the storage it occupies" on the heap
+static RECORDING: AtomicBool = AtomicBool::new(false);
+static OWNED_ONLY: AtomicBool = AtomicBool::new(false);
+static FOUND_OWNED: AtomicUsize = AtomicUsize::new(0);
+const MAXOWNED: usize = 256;
+static mut OWNED: [usize; MAXOWNED] = [0; MAXOWNED];
+
+unsafe fn owned_add(p: usize) {
+    for k in 0..MAXOWNED {
+        if OWNED[k] == 0 {
+            OWNED[k] = p;
+            return;
+        }
+    }
+}
+unsafe fn owned_take(p: usize) -> bool {
+    for k in 0..MAXOWNED {
+        if OWNED[k] == p {
+            OWNED[k] = 0;
+            return true;
+        }
+    }
+    false
+}
+
 unsafe impl GlobalAlloc for Spy {
     unsafe fn alloc(&self, l: Layout) -> *mut u8 {
-        System.alloc(l)
+        let p = System.alloc(l);
+        if RECORDING.load(Ordering::Relaxed) {
+            owned_add(p as usize);
+        }
+        p
     }
     unsafe fn dealloc(&self, p: *mut u8, l: Layout) {
+        if RECORDING.load(Ordering::Relaxed) {
+            owned_take(p as usize);
+        }
         if ARMED.load(Ordering::Relaxed) {
-            scan(p, l.size());
+            if OWNED_ONLY.load(Ordering::Relaxed) {
+                // count separately what is found in blocks the value owned and in any other freed block
+                let before = FOUND.load(Ordering::Relaxed);
+                scan(p, l.size());
+                if owned_take(p as usize) {
+                    FOUND_OWNED.fetch_add(FOUND.load(Ordering::Relaxed) - before, Ordering::Relaxed);
+                }
+            } else {
+                scan(p, l.size());
+            }
         }
         System.dealloc(p, l)
     }
@@ -182,7 +223,58 @@ fn canon_debug<T: std::fmt::Debug>(v: &T) -> String {
     format!("ok fields={}", out.join(";"))
 }
 
+/// a protocol step that CONSUMES a secret package: the heap blocks the package owns (allocated while it was built)
+/// are searched, when the step frees them, for the in-memory bytes of the package's secret coefficients. Copies in
+/// OTHER blocks freed by the step (temporaries) are counted separately: they are outside the property's statement.
+fn consumescan<C: Ciphersuite>(a: &A) -> Option<String> {
+    use frost_core::keys::{dkg, refresh};
+    use std::collections::BTreeMap;
+    let via = a.get("via")?;
+    let r1: BTreeMap<_, _> = p_recs(p_r1::<C>, a.get("r1")?)?.into_iter().collect();
+    let text = a.get("sp")?.to_string();
+    // the heap blocks allocated while the package is built and still live afterwards are the storage it occupies
+    unsafe {
+        for k in 0..MAXOWNED {
+            OWNED[k] = 0;
+        }
+    }
+    RECORDING.store(true, Ordering::SeqCst);
+    let sp = p_sp1::<C>(&text);
+    RECORDING.store(false, Ordering::SeqCst);
+    let sp = std::hint::black_box(sp?);
+    let mut owned = 0;
+    for k in 0..MAXOWNED {
+        if unsafe { OWNED[k] } != 0 {
+            owned += 1;
+        }
+    }
+    let pats: Vec<Vec<u8>> = sp.coefficients().iter().map(|c| mem::<C>(c)).collect();
+    let n = set_patterns(&pats);
+    let buf: Vec<u8> = std::hint::black_box(pats.iter().flat_map(|p| p.iter().copied()).collect());
+    let (_, hook, _) = armed(move || drop(buf));
+    FOUND_OWNED.store(0, Ordering::Relaxed);
+    OWNED_ONLY.store(true, Ordering::SeqCst);
+    let (res, found_any, blocks) = armed(move || match via {
+        "dkg2" => dkg::part2(sp, &r1).map(|_| ()),
+        _ => refresh::refresh_dkg_part2(sp, &r1).map(|_| ()),
+    });
+    OWNED_ONLY.store(false, Ordering::SeqCst);
+    Some(format!(
+        "ok found={} found_elsewhere={} owned_blocks={} blocks={} patterns={} control_hook={} step={}",
+        FOUND_OWNED.load(Ordering::Relaxed),
+        found_any - FOUND_OWNED.load(Ordering::Relaxed),
+        owned,
+        blocks,
+        n,
+        hook,
+        if res.is_ok() { "ok" } else { "err" }
+    ))
+}
+
 pub fn exec_secrets<C: Ciphersuite>(op: &str, a: &A) -> Option<String> {
+    if op == "consumescan" {
+        return consumescan::<C>(a);
+    }
     let t = a.get("t")?;
     let v = a.get("v")?;
     Some(match (op, t) {
